@@ -119,7 +119,7 @@ macro_rules! combine_impls {
                 #[cfg_attr(feature = "tracing", tracing::instrument(level = "trace"))]
                 fn combine(self) -> Source<Self::Output> {
                     #[cfg(callbag_verif)]
-                    use crate::verif_hooks::{ArcSwap, AtomicUsize};
+                    use crate::verif_hooks::{ArcSwap, ArcSwapOption, AtomicUsize};
                     #[cfg(feature = "tracing")]
                     let combine_fn_span = Span::current();
                     $(
